@@ -41,7 +41,8 @@ def fault_cases(base, rng, max_pos):
     positions = list(range(1, total + 1))
     if len(positions) > max_pos:
         positions = sorted(rng.shuffle(positions)[:max_pos])
-    tail = [("get", k) for k in keys] + [("reopen",)] + [("get", k) for k in keys]
+    # (dump and cat are for the model tie of the failed-append cases: index, counters and file bytes in the running process)
+    tail = [("get", k) for k in keys] + [("dump",), ("cat",), ("reopen",)] + [("get", k) for k in keys]
     for p in positions:
         c = S.Case("%s-f%d" % (base.name, p), base.cfg, [("failat", p)] + list(base.ops) + tail)
         c.base, c.pos, c.keys = base, p, keys
@@ -115,6 +116,88 @@ def oracle(c):
     return bad
 
 
+def failed_append_tie(rep, cases):
+    """Cases in which the injected fault hit the data-file write of a set or delete: the model state after a failed append
+    (Store/Engine.v after_failed_append, step_r; theorems in Store/FaultContinue.v) must give every later result, the index and
+    the counters of the running process, and everything after the restart (including the record that was still buffered and
+    is written out by the clean close)."""
+    from common import chunks, coq_eval, NCPU
+    sel = []
+    for c in cases:
+        f = c.trace.get("fails", [])
+        if not f or c.impl is None or not c.impl or c.impl[0] != "open ok":
+            continue
+        opi, kind, name = f[0]
+        if kind != "write" or not name.endswith(".data") or not (0 <= opi < len(c.ops)) or c.ops[opi][0] not in ("set", "del"):
+            continue
+        if len(c.impl) < len(c.ops) + 1 or any(l in ("panic", "abandoned") for l in c.impl):
+            continue                       # the oracle reports those
+        sel.append((c, opi))
+    if not sel:
+        rep.obligation("correspondence failed append: at least one case", False)
+        return {"cases": 0}
+
+    def term(c, opi):
+        m = S.Case(c.name, c.cfg, [o for o in c.ops])
+        m.orders = c.orders
+        body = S.coq_case(m)               # (cfg, [ops]) with the failed op still in it
+        # rebuild the op list with FailAppend in place of the failed operation and without the failat marker
+        ops, mi = [], 0
+        for i, o in enumerate(c.ops):
+            if o[0] == "failat":
+                continue
+            if i == opi:
+                one = S.Case("x", c.cfg, [o])
+                ops.append("FailAppend (%s) %s" % (S.coq_case(one).split(", [Op (", 1)[1][:-3], "true" if kept(c, opi) else "false"))
+                continue
+            one = S.Case("x", c.cfg, [o])
+            if o[0] == "merge":
+                one.orders = [c.orders[mi]] if c.orders and mi < len(c.orders) else [""]
+                mi += 1
+            ops.append(S.coq_case(one).split(", [", 1)[1][:-2])
+        return body.split(", [", 1)[0] + ", [" + "; ".join(ops) + "])"
+    def kept(c, opi):
+        """is the whole record still in the write buffer?  yes iff the failing call was the last write of the operation and that
+        write was a flush of the buffer (the value is shorter than the buffer) — then a clean close writes it out"""
+        bi = opi - 1                                    # index in the fault-free base run (no failat marker there)
+        raw = c.base.trace["raw"]
+        idx = c.pos - sum(raw.get(j, 0) for j in range(0, bi))
+        calls = c.base.trace["ops"].get(bi, [])
+        nwrites = raw.get(bi, 0) - sum(1 for x in calls if x.kind != "write")
+        o = c.ops[opi]
+        return idx == nwrites and (o[0] == "del" or len(o[2]) < 8192)
+    shards = chunks(sel, NCPU)
+    terms = ["render_cases [%s]" % "; ".join(term(c, opi) for c, opi in sh) for sh in shards]
+    res, logs = coq_eval("C20", "Store.Engine Store.Render", terms)
+    for l in logs[:1]:
+        log(l)
+    ndis, ncmp, ok_eval = 0, 0, True
+    for sh, r in zip(shards, res):
+        if r is None:
+            ok_eval = False
+            continue
+        lines = r.split("\n")
+        i = 0
+        for c, opi in sh:
+            n = len(c.ops) - 1 + 2          # without failat; "open ok" ... "end"
+            model = lines[i:i + n]
+            i += n
+            impl = [l for l in c.impl if not l.startswith("#")]
+            impl = [impl[0]] + impl[2:]     # drop the result line of the failat marker
+            ncmp += 1
+            # the bytes of the files are not compared: what a failed append left behind is not a record (junk tail)
+            mm = [S.norm(x) for x in model[:-1] if not x.startswith("cat ")]
+            ii = [S.norm(x) for x in impl[:len(model) - 1] if not x.startswith("cat ")]
+            if mm != ii:
+                ndis += 1
+                j = next((k for k in range(min(len(mm), len(ii))) if mm[k] != ii[k]), min(len(mm), len(ii)))
+                rep.disagree.append({"obligation": "correspondence failed append: model = implementation", "case": c.show(), "fault": c.trace["fails"][:1],
+                                     "first_difference_at": j, "model": model[max(0, j - 1):j + 2], "impl": impl[max(0, j - 1):j + 2]})
+    rep.obligation("the failed-append model evaluates on every selected case", ok_eval)
+    rep.obligation("correspondence failed append: results, index, counters and restart = the failed-append model on every case", ndis == 0 and ok_eval)
+    return {"cases": ncmp}
+
+
 def main(tier, seed):
     rep = Report("C20", tier, seed)
     rng = Rng(seed)
@@ -164,6 +247,7 @@ def main(tier, seed):
             rep.failing.append({"what": bad[0], "all": bad[:5], "fault_position": c.pos, "fault": f[:1],
                                 "case": c.show(), "impl": (c.impl or [])[:40]})
     rep.failing.sort(key=lambda f: len(f["case"]["ops"]))
+    cov_tie = failed_append_tie(rep, cases)
     rep.coverage.update({
         "checker_cmd": "make -C coq Props/C20.vo (coqc 8.16.1) ; bin/check C20",
         "trusted_base": TRUSTED,
@@ -173,7 +257,7 @@ def main(tier, seed):
                 "effect), at " + ("every" if tier == "thorough" else "up to 18 sampled") + " call positions; afterwards every key "
                 "is read in the running process, the store is reopened and every key read again; distinct = (workload, position) "
                 "where the injector actually fired",
-        "fault_kinds": kinds, "exhaustive": tier == "thorough",
+        "fault_kinds": kinds, "exhaustive": tier == "thorough", "failed_append_model_tie": cov_tie,
         "samples": [cases[0].show()] if cases else [],
         "proof": {"file": "coq/Props/C20.v", "theorems": pr["theorems"], "axioms": pr["axioms"]},
     })
